@@ -23,6 +23,7 @@ func init() {
 			"this repository's errors.Wrap*/WithMessage/WithStack of it (never nil, never a fresh error); C08.excl - exported item-returning carriers return only zero values beside an error, " +
 			"a message is returned with a nil error only under payloadLength == len(Payload) (or 0) and its payload grows only after a successful full read, a tag only after a successful CopyN; " +
 			"C08.fullread - the transports are read only through all-or-error primitives. " +
+			"Also: no wrapper returns its error argument itself (every call adds its layer). " +
 			"Not decided: enumeration of cut offsets and injected faults (each lands on one of the enumerated sites); bufio internals are trusted.",
 		Assume: []string{"io.ReadFull/io.CopyN/binary.Read return io.EOF or io.ErrUnexpectedEOF on a cut stream and the transport's error otherwise", "bufio passes the underlying error through"},
 		Run:    runC08,
@@ -927,6 +928,24 @@ func checkErrorsPkg(c *Ctx) {
 		}
 		R.Check(okNil, "C08.errors", "errors|"+name+"|nil-yields-nil", P.Pos(fn.Pos()),
 			"wrapping nil returns the nil constant", "wrapping a nil error does not return nil (callers' 'err != nil' tests would see a failure that never happened)", nil)
+		// (1a) every call adds its layer: a non-nil argument never comes back as it is (no "already wrapped"/"same text"
+		// shortcut - the message chain documents the path the error took, one entry per wrap)
+		{
+			same := ""
+			for _, ret := range core.Returns(fn) {
+				if len(ret.Results) == 0 {
+					continue
+				}
+				for _, leaf := range core.ValueLeaves(ret.Results[0]) {
+					if core.StripConv(leaf) == ssa.Value(errP) {
+						same = P.InstrPos(ret)
+					}
+				}
+			}
+			R.Check(same == "", "C08.errors", "errors|"+name+"|always-adds-a-layer", P.Pos(fn.Pos()),
+				"a non-nil error always comes back inside a new wrapper",
+				"the argument itself is returned on some path (at "+same+"): that call's message or stack is missing from the chain although the caller asked for it", nil)
+		}
 		// (1b) wrapping allocates: no store into anything but objects created in this call
 		pure := true
 		core.EachInstr(fn, func(in ssa.Instruction) {
